@@ -698,7 +698,7 @@ func (ex *Exec) hashBytes(fn string, bs []*term.T, n int) *ByteArr {
 	h := ex.hash64(fn, bs)
 	// digests are compared byte-wise (not as tokens), so functional consistency and collision freedom
 	// are stated explicitly against every earlier application of the same function
-	if len(ex.env.hashApps) > nprev {
+	if len(ex.env.hashApps) > nprev && len(bs) <= 512 { // (long inputs: token only, no pairwise statement)
 		for i := 0; i < nprev; i++ {
 			p := ex.env.hashApps[i]
 			if p.fn != fn {
